@@ -44,7 +44,9 @@ ShiftLaw ==
 
 TotalLaw == IF C.outcome \in {"model", "BareScriptParserError"} THEN <<"ACCEPT">> ELSE <<"REJECT", "escaped", C.outcome>>
 
-\* blanks outside quotes and brackets collapse to one blank; ends are stripped
+\* blanks outside quotes and brackets collapse to one blank, disappear next to "(", ")" and ","; ends are stripped
+RECURSIVE NextNonBlank(_, _)
+NextNonBlank(s, i) == IF i > Len(s) THEN 0 ELSE IF IsBlank(s[i]) THEN NextNonBlank(s, i + 1) ELSE s[i]
 RECURSIVE NormFrom(_, _, _, _)
 NormFrom(s, i, q, acc) ==      \* q = 0 outside, otherwise the closing delimiter we are waiting for
     IF i > Len(s) THEN acc
@@ -54,7 +56,10 @@ NormFrom(s, i, q, acc) ==      \* q = 0 outside, otherwise the closing delimiter
             ELSE NormFrom(s, i + 1, IF c = q THEN 0 ELSE q, Append(acc, c))
          ELSE IF c \in {39, 34} THEN NormFrom(s, i + 1, c, Append(acc, c))
          ELSE IF c = 91 THEN NormFrom(s, i + 1, 93, Append(acc, c))
-         ELSE IF IsBlank(c) THEN (IF acc # <<>> /\ acc[Len(acc)] = 32 THEN NormFrom(s, i + 1, 0, acc) ELSE NormFrom(s, i + 1, 0, Append(acc, 32)))
+         ELSE IF IsBlank(c) THEN
+            LET prev == IF acc = <<>> THEN 0 ELSE acc[Len(acc)]
+                nxt == NextNonBlank(s, i) IN
+            IF prev \in {0, 32, 40, 44} \/ nxt \in {0, 41, 44} THEN NormFrom(s, i + 1, 0, acc) ELSE NormFrom(s, i + 1, 0, Append(acc, 32))
          ELSE NormFrom(s, i + 1, 0, Append(acc, c))
 Norm(s) == RStripL(LStripL(NormFrom(s, 1, 0, <<>>)))
 NormLines(r) == [i \in 1..Len(r.lines) |-> Norm(r.lines[i].text)]
